@@ -324,7 +324,8 @@ def leafval(x):
 @clause('state_conversions', strategy=state_tree, quick=2000, thorough=100000,
         rule='random nested States (str-keyed and int-keyed levels, Variable/'
         'VariableState/array/int leaves): from_flat(to_flat(s)) is s leaf-by-'
-        'leaf, flat keys sorted, to_pure_dict/replace_by_pure_dict round trip, '
+        'leaf, flat keys sorted, to_pure_dict/replace_by_pure_dict round trip '
+        '(full and partial pure dicts), '
         'unknown key rejected; non-trivial = >=3 leaves over >=2 levels')
 def state_conversions(case, ctx):
   d = sbuild(case)
@@ -371,6 +372,27 @@ def state_conversions(case, ctx):
             f'leaf type changed at {p}')
     require(leafval(after[p]) == before[p][1] + 100,
             f'replace_by_pure_dict did not set value at {p}')
+  # a partial pure dict (every second leaf path, +1000) changes exactly the
+  # named leaves and keeps every other entry of the State
+  part_paths = sorted(model, key=repr)[::2]
+  partial = {}
+  for p in part_paths:
+    dd = partial
+    for k in p[:-1]:
+      dd = dd.setdefault(k, {})
+    dd[p[-1]] = before[p][1] + 1100
+  with sut('replace_by_pure_dict(partial)'):
+    statelib.replace_by_pure_dict(s, partial)
+  after = dict(statelib.to_flat_state(s))
+  require(set(after) == set(model), lambda: 'replace_by_pure_dict with a '
+          f'partial pure dict {sorted(part_paths, key=repr)} changed the '
+          f'paths of the State: {sorted(after, key=repr)} vs '
+          f'{sorted(model, key=repr)}')
+  for p in model:
+    want = before[p][1] + (1100 if p in part_paths else 100)
+    require(leafval(after[p]) == want, lambda: f'after a partial '
+            f'replace_by_pure_dict the leaf at {p} is {leafval(after[p])}, '
+            f'expected {want}')
   bad = dict(pure)
   bad['__nope__' if isinstance(next(iter(pure)), str) else 99] = 1
   expect_raises(ValueError, lambda: statelib.replace_by_pure_dict(s, bad),
